@@ -127,7 +127,14 @@ package json
 //@   ensures forall j :: 0 <= j && j < len(to.data) ==> result.data[j] == old(to.data[j])
 //@   ensures forall j :: len(to.data) <= j && j < len(result.data) ==> result.data[j] == 48
 //@   ensures result.data.arr == to.data.arr || fresh(result.data)
+//@   ensures natval(result.data, len(result.data)) == scaled(natval(old(to.data), old(len(to.data))), n > 0 ? n : 0)
 //@   no_panic
+//@   at return assert len(result.data) == old(len(to.data)) + (old(n) > 0 ? old(n) : 0)
+//@   at return assert forall j :: old(len(to.data)) <= j && j < len(result.data) ==> result.data[j] == 48
+//@   at return use natval_prefix(result.data, old(to.data), old(len(to.data)))
+//@   at return assert natval(result.data, old(len(to.data))) == natval(old(to.data), old(len(to.data)))
+//@   at return use natval_append_zeros(result.data, old(len(to.data)), old(n) > 0 ? old(n) : 0)
+//@   at return assert natval(result.data, old(len(to.data)) + (old(n) > 0 ? old(n) : 0)) == scaled(natval(result.data, old(len(to.data))), old(n) > 0 ? old(n) : 0)
 //@   loop#1 invariant n <= old(n) && len(to.data) == old(len(to.data)) + (old(n) > 0 ? old(n) : 0) - (n > 0 ? n : 0)
 //@   loop#1 invariant forall j :: 0 <= j && j < old(len(to.data)) ==> to.data[j] == old(to.data[j])
 //@   loop#1 invariant forall j :: old(len(to.data)) <= j && j < len(to.data) ==> to.data[j] == 48
@@ -142,17 +149,22 @@ package json
 //@   ensures forall j :: 0 <= j && j < len(to.data) ==> result.data[j] == old(to.data[j])
 //@   ensures forall j :: len(to.data) <= j && j < len(result.data) ==> 48 <= result.data[j] && result.data[j] <= 57
 //@   ensures result.data.arr == to.data.arr || fresh(result.data)
+//@   ensures natval(result.data, len(result.data)) == scaled(natval(old(to.data), old(len(to.data))), mantcount(from.data, len(from.data))) + mantval(from.data, len(from.data))
 //@   no_panic
+//@   loop#1 invariant natval(to.data, len(to.data)) == scaled(natval(old(to.data), old(len(to.data))), mantcount(from.data, rangeindex+1)) + mantval(from.data, rangeindex+1)
 //@   loop#1 invariant -1 <= rangeindex && rangeindex < len(from.data) && !mantstop(from.data, rangeindex+1)
 //@   loop#1 invariant len(to.data) == old(len(to.data)) + mantcount(from.data, rangeindex+1)
 //@   loop#1 invariant forall j :: 0 <= j && j < old(len(to.data)) ==> to.data[j] == old(to.data[j])
 //@   loop#1 invariant forall j :: old(len(to.data)) <= j && j < len(to.data) ==> 48 <= to.data[j] && to.data[j] <= 57
 //@   loop#1 invariant (to.data.arr == old(to.data.arr) || fresh(to.data)) && elems(from.data) == old(elems(from.data))
 //@   loop#1 decreases len(from.data) - rangeindex
-//@   at loop#1.entry use unfold_mantstop(from.data, 0); unfold_mantcount(from.data, 0)
-//@   at loop#1.back use unfold_mantstop(from.data, rangeindex+1); unfold_mantcount(from.data, rangeindex+1)
+//@   at loop#1.entry use unfold_mantstop(from.data, 0); unfold_mantcount(from.data, 0); unfold_mantval(from.data, 0); unfold_scaled(natval(to.data, len(to.data)), 0)
+//@   at loop#1.back use unfold_mantstop(from.data, rangeindex+1); unfold_mantcount(from.data, rangeindex+1); unfold_mantval(from.data, rangeindex+1)
+//@   at loop#1.back use natval_prefix(to.data, prev(to.data), prev(len(to.data))); unfold_natval(to.data, len(to.data))
+//@   at loop#1.back use unfold_scaled(natval(old(to.data), old(len(to.data))), mantcount(from.data, rangeindex+1))
 //@   loop#1 use mantcount_bounds(from.data, rangeindex+1)
 //@   at return#1 use unfold_mantstop(from.data, rangeindex+1); unfold_mantcount(from.data, rangeindex+1); mantstop_mono(from.data, rangeindex+1, len(from.data))
+//@   at return#1 use unfold_mantval(from.data, rangeindex+1); mantval_stable(from.data, rangeindex+1, len(from.data))
 
 //@ func (*Number).trimLeadingZerosInTheIntegerPart
 //@   property C13 C02
@@ -162,7 +174,10 @@ package json
 //@   ensures result == nil ==> n.exp == old(n.exp) && n.exp <= len(n.nat.data) && isDigitBytes(n.nat) && (len(n.nat.data) > n.exp ==> n.nat.data[0] != 48)
 //@   ensures result == nil ==> n.nat.data.arr == old(n.nat.data.arr) && n.nat.data.off + len(n.nat.data) == old(n.nat.data.off + len(n.nat.data)) && len(n.nat.data) <= old(len(n.nat.data))
 //@   ensures n.neg == old(n.neg)
+//@   ensures result == nil ==> natval(n.nat.data, len(n.nat.data)) == natval(old(n.nat.data), old(len(n.nat.data)))
 //@   no_panic
+//@   loop#1 invariant natval(n.nat.data, len(n.nat.data)) == natval(old(n.nat.data), old(len(n.nat.data))) && elems(n.nat.data) == old(elems(n.nat.data))
+//@   at loop#1.back use natval_leading_zero(prev(n.nat.data), prev(len(n.nat.data)))
 //@   loop#1 invariant intLen == len(n.nat.data) - n.exp && intLen >= 0 && 0 <= n.exp && n.exp == old(n.exp) && isDigitBytes(n.nat)
 //@   loop#1 invariant n.nat.data.arr == old(n.nat.data.arr) && n.nat.data.off + len(n.nat.data) == old(n.nat.data.off + len(n.nat.data)) && len(n.nat.data) <= old(len(n.nat.data))
 //@   loop#1 decreases intLen
@@ -175,7 +190,11 @@ package json
 //@   ensures result == nil ==> 0 <= n.exp && n.exp <= len(n.nat.data) && isDigitBytes(n.nat) && (n.exp > 0 ==> n.nat.data[len(n.nat.data)-1] != 48)
 //@   ensures result == nil ==> n.nat.data.arr == old(n.nat.data.arr) && n.nat.data.off == old(n.nat.data.off) && len(n.nat.data) - n.exp == old(len(n.nat.data) - n.exp)
 //@   ensures n.neg == old(n.neg)
+//@   ensures result == nil ==> scaled(natval(n.nat.data, len(n.nat.data)), old(n.exp) - n.exp) == natval(old(n.nat.data), old(len(n.nat.data))) && n.exp <= old(n.exp)
 //@   no_panic
+//@   loop#1 invariant scaled(natval(n.nat.data, len(n.nat.data)), old(n.exp) - n.exp) == natval(old(n.nat.data), old(len(n.nat.data))) && n.exp <= old(n.exp) && elems(n.nat.data) == old(elems(n.nat.data))
+//@   at loop#1.entry use unfold_scaled(natval(n.nat.data, len(n.nat.data)), 0)
+//@   at loop#1.back use unfold_natval(prev(n.nat.data), prev(len(n.nat.data))); scaled_shift(natval(n.nat.data, len(n.nat.data)), old(n.exp) - prev(n.exp))
 //@   loop#1 invariant 0 <= n.exp && n.exp <= len(n.nat.data) && isDigitBytes(n.nat)
 //@   loop#1 invariant n.nat.data.arr == old(n.nat.data.arr) && n.nat.data.off == old(n.nat.data.off) && len(n.nat.data) - n.exp == old(len(n.nat.data) - n.exp)
 //@   loop#1 decreases n.exp
@@ -191,11 +210,16 @@ package json
 //@ pred scanP(s *scanner, q Int, value bytes.Bytes, r Int) := q == NUM_P ==> fnis(s.stateFn, "(*scanner).statePointFound$bound") && s.intLen >= 1 && s.fraLen == 0 && s.expBegin == 0
 //@ pred scanF(s *scanner, q Int, value bytes.Bytes, r Int) := q == NUM_F ==> fnis(s.stateFn, "(*scanner).stateFractionalNumberFound$bound") && s.intLen >= 1 && s.fraLen >= 1 && s.expBegin == 0
 //@ pred scanE(s *scanner, q Int, value bytes.Bytes, r Int) := q == NUM_E ==> fnis(s.stateFn, "(*scanner).stateExpFound$bound") && s.intLen >= 1 && s.expBegin == 0 && r >= 1
-//@ pred scanG(s *scanner, q Int, value bytes.Bytes, r Int) := q == NUM_G ==> fnis(s.stateFn, "(*scanner).stateExpSignFound$bound") && s.intLen >= 1 && r >= 2 && (s.expBegin == 0 || (s.expBegin == r && value.data[r] == 45))
+//@ pred scanG(s *scanner, q Int, value bytes.Bytes, r Int) := q == NUM_G ==> fnis(s.stateFn, "(*scanner).stateExpSignFound$bound") && s.intLen >= 1 && r >= 2 && ((s.expBegin == 0 && value.data[r] == 43) || (s.expBegin == r && value.data[r] == 45))
 //@ pred scanX(s *scanner, q Int, value bytes.Bytes, r Int) := q == NUM_X ==> (fnis(s.stateFn, "(*scanner).stateExpFound$bound") || fnis(s.stateFn, "(*scanner).stateExpNumberFound$bound")) && s.intLen >= 1 && expDigits(s, value, r)
 //@ pred scanD(s *scanner, q Int, value bytes.Bytes, r Int) := q == NUM_D ==> (fnis(s.stateFn, "(*scanner).stateExpSignFound$bound") || fnis(s.stateFn, "(*scanner).stateExpNumberFound$bound")) && s.intLen >= 1 && 2 <= s.expBegin && s.expBegin <= r && !isdigits(value.data[(value.data[s.expBegin] == 45 ? s.expBegin + 1 : s.expBegin):], r + 1 - (value.data[s.expBegin] == 45 ? s.expBegin + 1 : s.expBegin))
 //@ pred scanFin(s *scanner, q Int, value bytes.Bytes, r Int) := q != NUM_D && r >= 0 ==> s.finished == num_acc(q)
 //@ pred scanStop(s *scanner, q Int, value bytes.Bytes, r Int) := (q == NUM_S || q == NUM_M || q == NUM_Z || q == NUM_I || q == NUM_P || q == NUM_F) == !mantstop(value.data, r+1)
+//@ pred scanFrac(s *scanner, q Int, value bytes.Bytes, r Int) := q != NUM_D ==> s.fraLen == fracd(value.data, r+1)
+//@ pred scanNeg(s *scanner, q Int, value bytes.Bytes, r Int) := s.negative == (r >= 0 && value.data[0] == 45)
+//@ pred scanExpSignX(s *scanner, q Int, value bytes.Bytes, r Int) := q == NUM_X ==> (value.data[s.expBegin] == 45) == expneg(value.data, r+1)
+//@ pred scanExpSignG(s *scanner, q Int, value bytes.Bytes, r Int) := q == NUM_G ==> expneg(value.data, r+1) == (value.data[r] == 45)
+//@ pred scanNoExp(s *scanner, q Int, value bytes.Bytes, r Int) := (q == NUM_S || q == NUM_M || q == NUM_Z || q == NUM_I || q == NUM_P || q == NUM_F || q == NUM_E) ==> !expneg(value.data, r+1) && numexp(value.data, r+1) == 0
 //@ pred scanExpVal(s *scanner, q Int, value bytes.Bytes, r Int) := q == NUM_X ==> natval(value.data[(value.data[s.expBegin] == 45 ? s.expBegin + 1 : s.expBegin):], r + 1 - (value.data[s.expBegin] == 45 ? s.expBegin + 1 : s.expBegin)) == numexp(value.data, r+1)
 
 // in the exponent digits: expBegin marks the '-' or the first digit, and everything after it is digits
@@ -217,7 +241,21 @@ package json
 //@   ensures result1 == nil ==> result0 != nil && fresh(result0) && wfNumber(*result0)
 //@   ensures result1 != nil ==> result0 == nil
 //@   ensures @C13 @C01 num_acc(q) ==> result1 == nil
+//@   ensures result1 == nil ==> deceq(natval(result0.nat.data, len(result0.nat.data)), result0.exp, mantval(value.data, vlen), textscale(value.data, vlen))
+//@   ensures result1 == nil ==> result0.neg == (value.data[0] == 45 && len(result0.nat.data) != 0)
 //@   no_panic
+//@   at call:setExp assert numrun(value.data, vlen) != 9 ==> s.fraLen == fracd(value.data, vlen) && s.intLen + s.fraLen == mantcount(value.data, vlen)
+//@   at call:setExp.after assert ret0 == nil ==> s.fraLen == textscale(value.data, vlen)
+//@   at call:appendZeros use unfold_natval(arg0.data, 0); scaled_sign(natval(arg0.data, len(arg0.data)), arg1 > 0 ? arg1 : 0)
+//@   at call:appendDigits use unfold_natval(arg1.data, 0); scaled_sign(natval(arg1.data, len(arg1.data)), mantcount(arg0.data, len(arg0.data))); mantcount_bounds(arg0.data, len(arg0.data))
+//@   at call:trimLeadingZerosInTheIntegerPart use mantval_nonneg(value.data, vlen); unfold_scaled(mantval(value.data, vlen), 0); scaled_sign(mantval(value.data, vlen), 0 - textscale(value.data, vlen))
+//@   at call:trimLeadingZerosInTheIntegerPart assert deceq(natval(n.nat.data, len(n.nat.data)), n.exp, mantval(value.data, vlen), textscale(value.data, vlen))
+//@   at call:trimTrailingZerosInTheFractionalPart bind N1 = natval(n.nat.data, len(n.nat.data)); x1 = n.exp
+//@   at call:trimTrailingZerosInTheFractionalPart.after bind N2 = natval(n.nat.data, len(n.nat.data)); x2 = n.exp
+//@   at call:trimTrailingZerosInTheFractionalPart.after use scaled_add(N2, x1 - x2, textscale(value.data, vlen)); scaled_add(N2, textscale(value.data, vlen), x1 - x2); scaled_add(mantval(value.data, vlen), x2, x1 - x2)
+//@   at call:trimTrailingZerosInTheFractionalPart.after use scaled_inj(scaled(N2, textscale(value.data, vlen)), scaled(mantval(value.data, vlen), x2), x1 - x2); unfold_scaled(N2, 0)
+//@   at call:trimTrailingZerosInTheFractionalPart.after assert ret0 == nil ==> deceq(N2, x2, mantval(value.data, vlen), textscale(value.data, vlen))
+//@   at call:trimTrailingZerosInTheFractionalPart assert deceq(natval(n.nat.data, len(n.nat.data)), n.exp, mantval(value.data, vlen), textscale(value.data, vlen))
 //@   at return#1 use unfold_numrun(value.data, rangeindex+1); num_dead_absorbing(value.data, rangeindex+1, vlen); num_zexp_closed(value.data, rangeindex+1, vlen)
 //@   loop#1 invariant -1 <= rangeindex && rangeindex < vlen
 //@   loop#1 invariant scanBase(s, numrun(value.data, rangeindex+1), value, rangeindex)
@@ -234,6 +272,13 @@ package json
 //@   loop#1 invariant scanFin(s, numrun(value.data, rangeindex+1), value, rangeindex)
 //@   loop#1 invariant scanStop(s, numrun(value.data, rangeindex+1), value, rangeindex)
 //@   loop#1 invariant scanExpVal(s, numrun(value.data, rangeindex+1), value, rangeindex)
+//@   loop#1 invariant scanFrac(s, numrun(value.data, rangeindex+1), value, rangeindex)
+//@   loop#1 invariant scanNeg(s, numrun(value.data, rangeindex+1), value, rangeindex)
+//@   loop#1 invariant scanExpSignX(s, numrun(value.data, rangeindex+1), value, rangeindex)
+//@   loop#1 invariant scanExpSignG(s, numrun(value.data, rangeindex+1), value, rangeindex)
+//@   loop#1 invariant scanNoExp(s, numrun(value.data, rangeindex+1), value, rangeindex)
+//@   at loop#1.entry use unfold_fracd(value.data, 0); unfold_expneg(value.data, 0); unfold_numexp(value.data, 0)
+//@   at loop#1.back use unfold_fracd(value.data, rangeindex+1); unfold_expneg(value.data, rangeindex+1)
 //@   loop#1 decreases vlen - rangeindex
 //@   loop#1 use numrun_range(value.data, rangeindex+1); mantcount_bounds(value.data, rangeindex+1)
 //@   at call:setExp assert rangeindex == vlen
@@ -261,6 +306,8 @@ package json
 //@   ensures result1 == nil ==> result0 != nil && fresh(result0) && wfNumber(*result0)
 //@   ensures result1 != nil ==> result0 == nil
 //@   ensures num_acc(q) && q != NUM_XZ && numexp(b.data, len(b.data)) <= 1099511627776 ==> result1 == nil
+//@   ensures result1 == nil ==> deceq(natval(result0.nat.data, len(result0.nat.data)), result0.exp, mantval(b.data, len(b.data)), textscale(b.data, len(b.data)))
+//@   ensures result1 == nil ==> result0.neg == (b.data[0] == 45 && len(result0.nat.data) != 0)
 //@   no_panic
 //@   at call:Scan use unfold_mantcount(b.data, 0); unfold_mantstop(b.data, 0)
 
